@@ -35,7 +35,10 @@ def _detached(value):
     it has already overwritten, so such arguments are snapshotted first.
     """
     if _sc_resolver.get_type(value) == "SYNCEDCOLLECTION":
-        return value._to_base()
+        # Calling the collection loads it first: it may belong to another
+        # resource and never have been read, in which case its in-memory
+        # representation is still empty.
+        return value()
     return value
 
 
